@@ -26,31 +26,33 @@ theorem pre_alive (sched : Nat → Intf) (row0 : Row) (h0 : row0.alive = true) (
 /-- The completion check under arbitrary interference (rows not deleted) does exactly one of:
     NOTHING (the committed row is the interferers' row);
     the SUCCESS completion, atomically, on the row `rc` of its compare-and-swap, whose state is the
-    state the RE-READ `r2` showed: not finished (guard of `_succeed_workflow`, repo fix ce9b9520) and
-    a valid source of SUCCESS, i.e. RUNNING;
+    state the RE-READ `r2` showed: neither paused nor finished (the guard repeated after
+    `expire_all`, repo patch 25, and the guard of `_succeed_workflow`, repo fix ce9b9520) and a valid
+    source of SUCCESS, i.e. RUNNING;
     the FORCE-FAIL of the exception handler, atomically, on the row `rh`, when the re-read showed
-    a state that is neither finished nor a valid source of SUCCESS (e.g. PAUSED). -/
+    a state that is neither paused, finished nor a valid source of SUCCESS (IDLE / DELAYED: states a
+    started workflow execution never has). -/
 theorem cac_succeed_atomic (sched : Nat → Intf) (vars : Fields) (row0 : Row)
     (h0 : row0.alive = true) (hk : KeepsAlive sched) :
-    ((runWith cacSucceedWorkflow sched vars row0).sh.db = pre sched 26 row0 ∧
+    ((runWith cacSucceedWorkflow sched vars row0).sh.db = pre sched 27 row0 ∧
       (runWith cacSucceedWorkflow sched vars row0).l.emitted = []) ∨
     (memVals (pausedStates ++ completedStates) ((pre sched 1 row0).f 0) = false ∧
-      memVals completedStates ((pre sched 4 row0).f 0) = false ∧
+      memVals (pausedStates ++ completedStates) ((pre sched 4 row0).f 0) = false ∧
       memVals validFromSuccess ((pre sched 4 row0).f 0) = true ∧
-      (pre sched 8 row0).f 0 = (pre sched 4 row0).f 0 ∧
+      (pre sched 9 row0).f 0 = (pre sched 4 row0).f 0 ∧
       (runWith cacSucceedWorkflow sched vars row0).sh.db =
-        between sched 8 18 (winRow (.str "SUCCESS") (vars 1) (vars 2) (pre sched 4 row0) (pre sched 8 row0))) ∨
+        between sched 9 18 (winRow (.str "SUCCESS") (vars 1) (vars 2) (pre sched 4 row0) (pre sched 9 row0))) ∨
     (memVals (pausedStates ++ completedStates) ((pre sched 1 row0).f 0) = false ∧
+      memVals (pausedStates ++ completedStates) ((pre sched 4 row0).f 0) = false ∧
       memVals validFromSuccess ((pre sched 4 row0).f 0) = false ∧
-      memVals completedStates ((pre sched 4 row0).f 0) = false ∧
       memVals validFromError ((pre sched 4 row0).f 0) = true ∧
-      (pre sched 19 row0).f 0 = (pre sched 4 row0).f 0 ∧
+      (pre sched 20 row0).f 0 = (pre sched 4 row0).f 0 ∧
       (runWith cacSucceedWorkflow sched vars row0).sh.db =
-        between sched 19 7 (winRow (.str "ERROR") (vars 3) (vars 4) (pre sched 4 row0) (pre sched 19 row0))) := by
+        between sched 20 7 (winRow (.str "ERROR") (vars 3) (vars 4) (pre sched 4 row0) (pre sched 20 row0))) := by
   have a1 := pre_alive sched row0 h0 hk 1
   have a4 := pre_alive sched row0 h0 hk 4
-  have a8 := pre_alive sched row0 h0 hk 8
-  have a19 := pre_alive sched row0 h0 hk 19
+  have a9 := pre_alive sched row0 h0 hk 9
+  have a20 := pre_alive sched row0 h0 hk 20
   by_cases g1 : memVals completedStates ((pre sched 1 row0).f 0) = true
   · left
     simp only [pre, completedStates] at a1 g1
@@ -61,48 +63,53 @@ theorem cac_succeed_atomic (sched : Nat → Intf) (vars : Fields) (row0 : Row)
     simp only [pre, completedStates, pausedStates, List.cons_append, List.nil_append] at a1 g1 g2
     simp only [cacSucceedWorkflow]
     race_simp [a1, g1, g2]
+  by_cases g3 : memVals (pausedStates ++ completedStates) ((pre sched 4 row0).f 0) = true
+  · left
+    simp only [pre, completedStates, pausedStates, List.cons_append, List.nil_append] at a1 a4 g1 g2 g3
+    simp only [cacSucceedWorkflow]
+    race_simp [a1, a4, g1, g2, g3]
   by_cases c : memVals completedStates ((pre sched 4 row0).f 0) = true
   · left
-    simp only [pre, completedStates, pausedStates, List.cons_append, List.nil_append] at a1 a4 g1 g2 c
+    simp only [pre, completedStates, pausedStates, List.cons_append, List.nil_append] at a1 a4 g1 g2 g3 c
     simp only [cacSucceedWorkflow]
-    race_simp [a1, a4, g1, g2, c]
+    race_simp [a1, a4, g1, g2, g3, c]
   by_cases v : memVals validFromSuccess ((pre sched 4 row0).f 0) = true
-  · by_cases m : (pre sched 8 row0).f 0 = (pre sched 4 row0).f 0
+  · by_cases m : (pre sched 9 row0).f 0 = (pre sched 4 row0).f 0
     · right; left
-      refine ⟨by simpa using g2, by simpa using c, v, m, ?_⟩
-      simp only [pre, completedStates, pausedStates, validFromSuccess, List.cons_append, List.nil_append] at a1 a4 a8 g1 g2 c v m
+      refine ⟨by simpa using g2, by simpa using g3, v, m, ?_⟩
+      simp only [pre, completedStates, pausedStates, validFromSuccess, List.cons_append, List.nil_append] at a1 a4 a9 g1 g2 g3 c v m
       simp only [cacSucceedWorkflow]
       by_cases h4 : vars 1 = (sched 3 (sched 2 (sched 1 (sched 0 row0)))).f 1 <;>
         by_cases h5 : Val.bool true = (sched 3 (sched 2 (sched 1 (sched 0 row0)))).f 3 <;>
         by_cases h6 : ((sched 3 (sched 2 (sched 1 (sched 0 row0)))).f 4).truthy = true <;>
-        (race_simp [a1, a4, a8, g1, g2, c, v, m, h4, h5, h6, winRow]
+        (race_simp [a1, a4, a9, g1, g2, g3, c, v, m, h4, h5, h6, winRow]
          try race_rows)
     · left
-      simp only [pre, completedStates, pausedStates, validFromSuccess, List.cons_append, List.nil_append] at a1 a4 a8 g1 g2 c v m
+      simp only [pre, completedStates, pausedStates, validFromSuccess, List.cons_append, List.nil_append] at a1 a4 a9 g1 g2 g3 c v m
       simp only [cacSucceedWorkflow]
-      race_simp [a1, a4, a8, g1, g2, c, v, m]
+      race_simp [a1, a4, a9, g1, g2, g3, c, v, m]
   · by_cases e : memVals validFromError ((pre sched 4 row0).f 0) = true
-    · by_cases mh : (pre sched 19 row0).f 0 = (pre sched 4 row0).f 0
+    · by_cases mh : (pre sched 20 row0).f 0 = (pre sched 4 row0).f 0
       · right; right
-        refine ⟨by simpa using g2, by simpa using v, by simpa using c, e, mh, ?_⟩
+        refine ⟨by simpa using g2, by simpa using g3, by simpa using v, e, mh, ?_⟩
         simp only [pre, completedStates, pausedStates, validFromSuccess, validFromError, List.cons_append, List.nil_append]
-          at a1 a4 a19 g1 g2 v c e mh
+          at a1 a4 a20 g1 g2 g3 v c e mh
         simp only [cacSucceedWorkflow]
         by_cases h4 : vars 3 = (sched 3 (sched 2 (sched 1 (sched 0 row0)))).f 1 <;>
           by_cases h5 : Val.bool true = (sched 3 (sched 2 (sched 1 (sched 0 row0)))).f 3 <;>
           by_cases h6 : ((sched 3 (sched 2 (sched 1 (sched 0 row0)))).f 4).truthy = true <;>
-          (race_simp [a1, a4, a19, g1, g2, v, c, e, mh, h4, h5, h6, winRow]
+          (race_simp [a1, a4, a20, g1, g2, g3, v, c, e, mh, h4, h5, h6, winRow]
            try race_rows)
       · left
         simp only [pre, completedStates, pausedStates, validFromSuccess, validFromError, List.cons_append, List.nil_append]
-          at a1 a4 a19 g1 g2 v c e mh
+          at a1 a4 a20 g1 g2 g3 v c e mh
         simp only [cacSucceedWorkflow]
-        race_simp [a1, a4, a19, g1, g2, v, c, e, mh]
+        race_simp [a1, a4, a20, g1, g2, g3, v, c, e, mh]
     · left
       simp only [pre, completedStates, pausedStates, validFromSuccess, validFromError, List.cons_append, List.nil_append]
-        at a1 a4 g1 g2 v c e
+        at a1 a4 g1 g2 g3 v c e
       simp only [cacSucceedWorkflow]
-      race_simp [a1, a4, g1, g2, v, c, e]
+      race_simp [a1, a4, g1, g2, g3, v, c, e]
 
 /-! ### the sentences of C03 / C11 for the completion check, and where the code falls short -/
 
@@ -133,59 +140,60 @@ theorem at3_keeps (g : Intf) (hg : ∀ r, r.alive = true → (g r).alive = true)
     `_succeed_workflow`, evaluated on the RE-READ copy, it is the full statement. -/
 theorem cac_succeed_keeps_finished (sched : Nat → Intf) (vars : Fields) (row0 : Row)
     (h0 : row0.alive = true) (hk : KeepsAlive sched) :
-    (memVals completedStates ((pre sched 8 row0).f 0) = true →
-      (runWith cacSucceedWorkflow sched vars row0).sh.db = pre sched 26 row0 ∨
-      memVals completedStates ((pre sched 19 row0).f 0) = false) ∧
-    (memVals completedStates ((pre sched 8 row0).f 0) = true →
-      memVals completedStates ((pre sched 19 row0).f 0) = true →
-      (runWith cacSucceedWorkflow sched vars row0).sh.db = pre sched 26 row0) := by
-  have key : memVals completedStates ((pre sched 8 row0).f 0) = true →
-      (runWith cacSucceedWorkflow sched vars row0).sh.db = pre sched 26 row0 ∨
-      memVals completedStates ((pre sched 19 row0).f 0) = false := by
+    (memVals completedStates ((pre sched 9 row0).f 0) = true →
+      (runWith cacSucceedWorkflow sched vars row0).sh.db = pre sched 27 row0 ∨
+      memVals completedStates ((pre sched 20 row0).f 0) = false) ∧
+    (memVals completedStates ((pre sched 9 row0).f 0) = true →
+      memVals completedStates ((pre sched 20 row0).f 0) = true →
+      (runWith cacSucceedWorkflow sched vars row0).sh.db = pre sched 27 row0) := by
+  have sub : ∀ v : Val, memVals (pausedStates ++ completedStates) v = false → memVals completedStates v = false := by
+    intro v hv
+    simp [memVals, pausedStates, completedStates] at hv ⊢
+    exact ⟨hv.2.1, hv.2.2.1, hv.2.2.2.1, hv.2.2.2.2⟩
+  have key : memVals completedStates ((pre sched 9 row0).f 0) = true →
+      (runWith cacSucceedWorkflow sched vars row0).sh.db = pre sched 27 row0 ∨
+      memVals completedStates ((pre sched 20 row0).f 0) = false := by
     intro hfin
-    rcases cac_succeed_atomic sched vars row0 h0 hk with h | ⟨_, hc, _, hm, _⟩ | ⟨_, _, hc, _, hm, _⟩
+    rcases cac_succeed_atomic sched vars row0 h0 hk with h | ⟨_, hc, _, hm, _⟩ | ⟨_, hc, _, _, hm, _⟩
     · exact Or.inl h.1
-    · rw [hm] at hfin; rw [hfin] at hc; cases hc
-    · right; rw [hm]; exact hc
+    · rw [hm] at hfin; rw [sub _ hc] at hfin; cases hfin
+    · right; rw [hm]; exact sub _ hc
   refine ⟨key, ?_⟩
   intro h7 h18
   rcases key h7 with h | h
   · exact h
   · rw [h] at h18; cases h18
 
-/-- "exactly one of completer / stopper determines (state, output)": the committed row is the
-    interferers' row or carries the completion's SUCCESS and output.  FALSE of the code: the
-    operator PAUSES the execution between the stale guard and the re-read; set_state(SUCCESS) raises
-    (PAUSED -> SUCCESS is invalid), the handler force-fails the PAUSED execution: it ends in ERROR,
-    which neither party asked for (known finding `paused-during-completion-check-forced-to-error`). -/
-theorem cac_one_party_full_fails :
-    ¬ (∀ (sched : Nat → Intf) (vars : Fields) (row0 : Row), row0.alive = true → KeepsAlive sched →
-        (runWith cacSucceedWorkflow sched vars row0).sh.db = pre sched 26 row0 ∨
-        (runWith cacSucceedWorkflow sched vars row0).sh.db.f 0 = .str "SUCCESS") := by
-  intro h
-  have := h (at3 opPause) scriptVars rowRunning rfl
-    (at3_keeps _ (by intro r hr; unfold opPause; split <;> simp_all))
-  simp only [cacSucceedWorkflow] at this
-  rcases this with h1 | h1
-  · have h2 := congrArg (fun r => r.f 0) h1
-    race_simp_at h2 [memVals, Val.truthy, at3, opPause, rowRunning, scriptVars]
-  · race_simp_at h1 [memVals, Val.truthy, at3, opPause, rowRunning, scriptVars]
+/-- the states a STARTED workflow execution can show (IDLE is left by `start`; DELAYED, WAITING,
+    SKIPPED are task states) -/
+def startedWfStates : List Val := [.str "RUNNING", .str "PAUSED", .str "SUCCESS", .str "ERROR", .str "CANCELLED"]
 
-/-- .. and TRUE when the re-read shows a state from which SUCCESS is a valid move, or a finished one
-    (i.e. the execution was not paused / delayed in between). -/
-theorem cac_one_party_partial (sched : Nat → Intf) (vars : Fields) (row0 : Row)
+/-- "exactly one of completer / stopper determines (state, output)": whatever commits in between
+    (pause, stop, another completion check ...), the committed row is the interferers' row untouched,
+    or carries the completion's SUCCESS and output, installed at one instant.  Before repo patch 25 this
+    was FALSE (`cac_one_party_full_fails`: a pause committing between the stale guard and the re-read
+    made set_state(SUCCESS) raise and the handler force-failed the PAUSED execution); with the guard
+    repeated after `expire_all` it holds for every state a started execution can show. -/
+theorem cac_one_party (sched : Nat → Intf) (vars : Fields) (row0 : Row)
     (h0 : row0.alive = true) (hk : KeepsAlive sched)
-    (hre : memVals validFromSuccess ((pre sched 4 row0).f 0) = true ∨
-           memVals completedStates ((pre sched 4 row0).f 0) = true) :
-    (runWith cacSucceedWorkflow sched vars row0).sh.db = pre sched 26 row0 ∨
-    ∃ W : Row, (runWith cacSucceedWorkflow sched vars row0).sh.db = between sched 8 18 W ∧
+    (hre : memVals startedWfStates ((pre sched 4 row0).f 0) = true) :
+    (runWith cacSucceedWorkflow sched vars row0).sh.db = pre sched 27 row0 ∨
+    ∃ W : Row, (runWith cacSucceedWorkflow sched vars row0).sh.db = between sched 9 18 W ∧
       W.f 0 = .str "SUCCESS" ∧ W.f 2 = vars 2 := by
-  rcases cac_succeed_atomic sched vars row0 h0 hk with h | ⟨_, _, _, _, h⟩ | ⟨_, hv, hc, _⟩
+  rcases cac_succeed_atomic sched vars row0 h0 hk with h | ⟨_, _, _, _, h⟩ | ⟨_, hp, hv, _⟩
   · exact Or.inl h.1
   · exact Or.inr ⟨_, h, by simp [winRow], by simp [winRow]⟩
-  · rcases hre with hre | hre
-    · rw [hre] at hv; cases hv
-    · rw [hre] at hc; cases hc
+  · exfalso
+    simp [memVals, startedWfStates, pausedStates, completedStates, validFromSuccess] at hre hp hv
+    rcases hre with h | h | h | h | h <;> simp_all
+
+/-- regression (the former `cac_one_party_full_fails` witness): the operator PAUSES between the stale
+    guard and the re-read; the hypothesis holds and the execution stays PAUSED, untouched -/
+example : memVals startedWfStates ((pre (at3 opPause) 4 rowRunning).f 0) = true ∧
+    (runWith cacSucceedWorkflow (at3 opPause) scriptVars rowRunning).sh.db.f 0 = .str "PAUSED" ∧
+    (runWith cacSucceedWorkflow (at3 opPause) scriptVars rowRunning).sh.db.f 1 = .null := by
+  simp only [cacSucceedWorkflow, startedWfStates]
+  race_simp [memVals, Val.truthy, at3, opPause, rowRunning, scriptVars]
 
 /-- non-vacuity of `cac_succeed_keeps_finished`: the operator CANCELS (or stops with SUCCESS) between
     the two reads; the hypotheses hold and the row keeps the operator's state, message and output -/
@@ -194,13 +202,13 @@ def opCancel : Intf := fun r =>
     { r with f := ((r.f.set 0 (.str "CANCELLED")).set 1 (.str "by operator")).set 2 (.str "op-out") |>.set 3 (.bool true) }
   else r
 
-example : memVals completedStates ((pre (at3 opCancel) 8 rowRunning).f 0) = true ∧
-    memVals completedStates ((pre (at3 opCancel) 19 rowRunning).f 0) = true ∧
+example : memVals completedStates ((pre (at3 opCancel) 9 rowRunning).f 0) = true ∧
+    memVals completedStates ((pre (at3 opCancel) 20 rowRunning).f 0) = true ∧
     (runWith cacSucceedWorkflow (at3 opCancel) scriptVars rowRunning).sh.db.f 2 = .str "op-out" := by
   simp only [cacSucceedWorkflow, completedStates]
   race_simp [memVals, Val.truthy, at3, opCancel, rowRunning, scriptVars]
 
-example : memVals completedStates ((pre (at3 opSuccess) 8 rowRunning).f 0) = true ∧
+example : memVals completedStates ((pre (at3 opSuccess) 9 rowRunning).f 0) = true ∧
     (runWith cacSucceedWorkflow (at3 opSuccess) scriptVars rowRunning).sh.db.f 1 = .str "by operator" := by
   simp only [cacSucceedWorkflow, completedStates]
   race_simp [memVals, Val.truthy, at3, opSuccess, rowRunning, scriptVars]
